@@ -136,30 +136,115 @@ func (cx *Ctx) readOnlyTable(g *ssa.Global) (bool, string) {
 				if !ok || ld.Op != token.MUL {
 					return false, "it is written or its address is taken at " + cx.W.InstrPos(in)
 				}
-				for _, ref := range nonDebugRefs(ld) {
-					switch x := ref.(type) {
-					case *ssa.Lookup:
-						if x.X != ssa.Value(ld) {
-							return false, "it is used as a key at " + cx.W.InstrPos(x)
-						}
-					case *ssa.Range:
-					case *ssa.Index:
-					case *ssa.IndexAddr:
-						if !onlyLoads(x) {
-							return false, "an element is written or its address kept at " + cx.W.InstrPos(x)
-						}
-					case *ssa.Call:
-						if bi, isB := x.Call.Value.(*ssa.Builtin); !isB || (bi.Name() != "len" && bi.Name() != "cap") {
-							return false, "it is handed to a call at " + cx.W.InstrPos(x)
-						}
-					default:
-						return false, "it is used in a way that may modify or keep it at " + cx.W.InstrPos(ref)
-					}
+				if why := cx.readOnlyUse(ld, onlyLoads, 0, map[ssa.Value]bool{}); why != "" {
+					return false, why
 				}
 			}
 		}
 	}
 	return true, ""
+}
+
+// readOnlyUse: "" when every use of the table value v looks it up, ranges over it, takes its length, reads an element,
+// or hands it to something that does no more than that - a library search (slices.Contains, slices.Index...,
+// strings.Join) or a module function whose parameter is in turn used read-only (also from the function literals that
+// capture it).
+func (cx *Ctx) readOnlyUse(v ssa.Value, onlyLoads func(ssa.Value) bool, depth int, seen map[ssa.Value]bool) string {
+	if seen[v] {
+		return ""
+	}
+	seen[v] = true
+	if depth > 4 {
+		return "it is handed on too deep to follow (" + v.Name() + ")"
+	}
+	pos := func(in ssa.Instruction) string { return cx.W.InstrPos(in) }
+	for _, ref := range nonDebugRefs(v) {
+		switch x := ref.(type) {
+		case *ssa.Lookup:
+			if x.X != v {
+				return "it is used as a key at " + pos(x)
+			}
+		case *ssa.Range:
+		case *ssa.Index:
+		case *ssa.IndexAddr:
+			if !onlyLoads(x) {
+				return "an element is written or its address kept at " + pos(x)
+			}
+		case *ssa.Phi:
+			if why := cx.readOnlyUse(x, onlyLoads, depth, seen); why != "" {
+				return why
+			}
+		case *ssa.Store:
+			// kept in a local variable (a parameter a function literal captures): the uses of that variable
+			cell, isCell := x.Addr.(*ssa.Alloc)
+			if !isCell || x.Val != v {
+				return "it is stored at " + pos(x)
+			}
+			for _, cr := range nonDebugRefs(cell) {
+				switch y := cr.(type) {
+				case *ssa.Store:
+					if y.Addr != ssa.Value(cell) {
+						return "the address of the variable holding it is kept at " + pos(y)
+					}
+				case *ssa.UnOp:
+					if why := cx.readOnlyUse(y, onlyLoads, depth, seen); why != "" {
+						return why
+					}
+				case *ssa.MakeClosure:
+					lit, _ := y.Fn.(*ssa.Function)
+					if lit == nil {
+						return "it is captured at " + pos(y)
+					}
+					for i, bnd := range y.Bindings {
+						if bnd != ssa.Value(cell) || i >= len(lit.FreeVars) {
+							continue
+						}
+						for _, fr := range nonDebugRefs(lit.FreeVars[i]) {
+							ld, isLd := fr.(*ssa.UnOp)
+							if !isLd || ld.Op != token.MUL {
+								return "the captured variable holding it is written at " + pos(fr)
+							}
+							if why := cx.readOnlyUse(ld, onlyLoads, depth+1, seen); why != "" {
+								return why
+							}
+						}
+					}
+				default:
+					return "the variable holding it is used in a way that may modify it at " + pos(cr)
+				}
+			}
+		case *ssa.Call:
+			if bi, isB := x.Call.Value.(*ssa.Builtin); isB {
+				if bi.Name() != "len" && bi.Name() != "cap" {
+					return "it is handed to " + bi.Name() + " at " + pos(x)
+				}
+				continue
+			}
+			n := calleeName(x)
+			if i := strings.Index(n, "["); i >= 0 {
+				n = n[:i]
+			}
+			switch n {
+			case "slices.Contains", "slices.Index", "slices.ContainsFunc", "slices.IndexFunc", "strings.Join":
+				continue
+			}
+			g := calleeOf(x)
+			if g == nil || g.Blocks == nil || g.Pkg == nil || !isModulePath(g.Pkg.Pkg.Path()) || x.Call.IsInvoke() {
+				return "it is handed to a call at " + pos(x)
+			}
+			for i, a := range x.Call.Args {
+				if a != v || i >= len(g.Params) {
+					continue
+				}
+				if why := cx.readOnlyUse(g.Params[i], onlyLoads, depth+1, seen); why != "" {
+					return why
+				}
+			}
+		default:
+			return "it is used in a way that may modify or keep it at " + pos(ref)
+		}
+	}
+	return ""
 }
 
 func checkC15(cx *Ctx, r *Report) {
